@@ -26,6 +26,8 @@ if typing.TYPE_CHECKING:
 log = logging.getLogger(__name__)
 
 
+MAX_ERROR_TEXT_LENGTH = 256  # error replies echo the exception text, keep them under MSG_SIZE_LIMIT
+
 OLD_PROTOCOL_ERRORS = {
     "findNode() takes exactly 2 arguments (5 given)": "0.19.1",
     "findValue() takes exactly 2 arguments (5 given)": "0.19.1"
@@ -454,7 +456,7 @@ class KademliaProtocol(DatagramProtocol):
             self.send_error(
                 peer,
                 ErrorDatagram(ERROR_TYPE, request_datagram.rpc_id, self.node_id, str(type(err)).encode(),
-                              str(err).encode())
+                              str(err)[:MAX_ERROR_TEXT_LENGTH].encode())
             )
         except Exception as err:
             log.warning("error raised handling %s request from %s:%i - %s(%s)",
@@ -463,7 +465,7 @@ class KademliaProtocol(DatagramProtocol):
             self.send_error(
                 peer,
                 ErrorDatagram(ERROR_TYPE, request_datagram.rpc_id, self.node_id, str(type(err)).encode(),
-                              str(err).encode())
+                              str(err)[:MAX_ERROR_TEXT_LENGTH].encode())
             )
 
     def handle_response_datagram(self, address: typing.Tuple[str, int], response_datagram: ResponseDatagram):
